@@ -161,6 +161,10 @@ def run_case(case):
                 viol(out, 'entry-half-removed/%s/%s' % (st, case['pclass']), r, e, pat)
         if pat.startswith('/'):
             obs['fullpath_patterns'] = 1
+        ci = trashworld.created_inside(s0, s1, case['trashes'])
+        if ci:
+            out['violations'].append({'mechanism': 'purge-created-something-in-trash',
+                                      'detail': {'created': ci[:6], 'run': r.brief()}})
         od = trashworld.outside_trash_diff(s0, s1, case['trashes'])
         if od:
             out['violations'].append({'mechanism': 'changed-outside-trash',
